@@ -62,6 +62,69 @@ impl ReactCache {
 //@| ensures r == self.component,
 //@endimpl
 
+// ---- ReactiveMut<T> (the query-level wrapper): set_if_neq / set_single_if_not_eq delegate to React::set_if_neq of the addressed entity ----
+pub struct QueryEntityError;
+pub type Mut<'a, T> = &'a mut T;
+//@enum src/react/err.rs CobwebReactError
+pub trait QData { type Item<'a>; }
+#[verifier::external_body] #[verifier::accept_recursive_types(T)]
+pub struct QueryRM<'w, 's, T: ReactComponent> { _p: core::marker::PhantomData<(&'w (), &'s (), T)> }
+impl<'w, 's, T: ReactComponent> QueryRM<'w, 's, T> {
+    /// the React<T> components, per entity
+    pub uninterp spec fn comps(&self) -> Map<Entity, React<T>>;
+    /// the one entity the query matches (meaningful when it matches exactly one)
+    pub uninterp spec fn the_one(&self) -> Entity;
+    // Query::get_mut(e): the entity and exclusive access to its React<T>; only that component can change through it
+    #[verifier::external_body]
+    pub fn get_mut(&mut self, e: Entity) -> (r: Result<(Entity, Mut<'_, React<T>>), QueryEntityError>)
+        ensures r is Ok <==> old(self).comps().dom().contains(e),
+                r is Ok ==> (r->Ok_0.0 == e && *r->Ok_0.1 == old(self).comps()[e] && final(self).comps() == old(self).comps().insert(e, *final(r->Ok_0.1))),
+                r is Err ==> final(self).comps() == old(self).comps(),
+    { unimplemented!() }
+    // Query::single_mut(): panics unless exactly one entity matches (precondition here)
+    #[verifier::external_body]
+    pub fn single_mut(&mut self) -> (r: (Entity, Mut<'_, React<T>>))
+        requires old(self).comps().dom().contains(old(self).the_one()),
+        ensures r.0 == old(self).the_one() && *r.1 == old(self).comps()[r.0] && final(self).comps() == old(self).comps().insert(r.0, *final(r.1)),
+    { unimplemented!() }
+}
+pub struct ReactiveMut<'w, 's, T: ReactComponent> { pub components: QueryRM<'w, 's, T> }
+/// what React::set_if_neq does to one component and the command log
+pub open spec fn set_spec<T: ReactComponent + PartialEq>(old_c: React<T>, new: T, new_c: React<T>, log0: Seq<Queued>, log1: Seq<Queued>, r: Option<T>) -> bool {
+    &&& new_c.entity == old_c.entity
+    &&& (new.eq_spec(&old_c.component) ==> (r is None && new_c.component == old_c.component && log1 == log0))
+    &&& (!new.eq_spec(&old_c.component) ==> (r == Some(old_c.component) && new_c.component == new
+            && log1 == log0.push(Queued::MutationTrigger { sys: sys_id(ReactCache::schedule_mutation_reaction::<T>), entity: old_c.entity })))
+}
+//@impl src/react/react_component.rs impl ReactiveMut
+// ASSUMED (bodies use Mut::into_inner, which the `Mut = &mut` stand-in does not have; discharged on the real code by K.accessors.reactive_mut.*):
+// get_mut / single_mut queue exactly ONE mutation trigger for the addressed entity and hand out its component
+//@extern? src/react/react_component.rs impl ReactiveMut get_mut ret=r
+//@| ensures *final(*final(c)) == *final(*old(c)),
+//@|         r is Ok <==> old(self).components.comps().dom().contains(entity),
+//@|         r is Err ==> ((*final(c)).log() == (*old(c)).log() && final(self).components.comps() == old(self).components.comps()),
+//@|         r is Ok ==> ((*final(c)).log() == (*old(c)).log().push(Queued::MutationTrigger { sys: sys_id(ReactCache::schedule_mutation_reaction::<T>), entity: entity })
+//@|             && *r->Ok_0 == old(self).components.comps()[entity].component
+//@|             && final(self).components.comps() == old(self).components.comps().insert(entity, React { entity: old(self).components.comps()[entity].entity, component: *final(r->Ok_0) })),
+//@extern? src/react/react_component.rs impl ReactiveMut single_mut ret=r
+//@| requires old(self).components.comps().dom().contains(old(self).components.the_one()),
+//@| ensures *final(*final(c)) == *final(*old(c)), r.0 == old(self).components.the_one(),
+//@|         (*final(c)).log() == (*old(c)).log().push(Queued::MutationTrigger { sys: sys_id(ReactCache::schedule_mutation_reaction::<T>), entity: r.0 }),
+//@|         *r.1 == old(self).components.comps()[r.0].component,
+//@|         final(self).components.comps() == old(self).components.comps().insert(r.0, React { entity: old(self).components.comps()[r.0].entity, component: *final(r.1) }),
+//@fn src/react/react_component.rs impl ReactiveMut set_if_neq ret=r
+//@| requires T::obeys_eq_spec(),
+//@| ensures *final(*final(c)) == *final(*old(c)),
+//@|         !old(self).components.comps().dom().contains(entity) ==> (r is None && (*final(c)).log() == (*old(c)).log() && final(self).components.comps() == old(self).components.comps()),
+//@|         old(self).components.comps().dom().contains(entity) ==> (exists|nc: React<T>| #![trigger old(self).components.comps().insert(entity, nc)] final(self).components.comps() == old(self).components.comps().insert(entity, nc)
+//@|             && set_spec(old(self).components.comps()[entity], new, nc, (*old(c)).log(), (*final(c)).log(), r)),
+//@fn src/react/react_component.rs impl ReactiveMut set_single_if_not_eq ret=r
+//@| requires T::obeys_eq_spec(), old(self).components.comps().dom().contains(old(self).components.the_one()),
+//@| ensures *final(*final(c)) == *final(*old(c)), r.0 == old(self).components.the_one(),
+//@|         exists|nc: React<T>| #![trigger old(self).components.comps().insert(r.0, nc)] final(self).components.comps() == old(self).components.comps().insert(r.0, nc)
+//@|             && set_spec(old(self).components.comps()[r.0], new, nc, (*old(c)).log(), (*final(c)).log(), r.1),
+//@endimpl
+
 //@struct src/react/react_resource.rs ReactResInner
 //@impl src/react/react_resource.rs impl ReactResInner
 //@fn src/react/react_resource.rs impl ReactResInner new ret=r
